@@ -104,7 +104,9 @@ def run_profile(ctx, prop, profile, nseq, nops, size, kinds=None, seed_off=0, sh
                 kf = vlib.match_finding(Failure(prop, k_, p_, d_), findings)
                 # reference and implementation still agree on replies and on the abstract state (an invariant violation
                 # that the abstraction does not see, e.g. a leaked inode, is some other property's and does not stop the run)
-                benign = not s_['panic'] and s_['reply'] and s_['nabs'] == 0
+                # (a twin comparison that differs says the running server and a restarted one disagree, not that reference
+                #  and implementation do: for properties that do not own it the run goes on)
+                benign = not s_['panic'] and s_['nabs'] == 0 and (s_['reply'] or k_ == 'twin')
                 if kf is None and (benign or ignore_foreign) and not any(a in kinds for a, _ in vlib.classify_all(s_)):
                     # a relation another property owns failed, but reference and implementation still agree: go on
                     stats.setdefault('foreign_benign', []).append('%s/%s/%s' % (k_, p_, d_[:60]))
